@@ -2,10 +2,10 @@
 from harness import qcommon
 from vlib.runner import CheckSpec, Cube
 from vlib.stubs import qsim
-from vlib.stubs.qsim import ADD, DISCONNECT, FINISH, KILL, PULL, READD, RUN, TICK, WAIT
+from vlib.stubs.qsim import ADD, DISCONNECT, FINISH, KILL, PULL, READD, RUN, TICK, WAIT, WATCHDOG
 
 PROPS = ("C17",)
-FULL = (ADD, PULL, RUN, FINISH, KILL, TICK, DISCONNECT, WAIT, READD)
+FULL = (ADD, PULL, RUN, FINISH, KILL, TICK, DISCONNECT, WAIT, READD, WATCHDOG)
 ORDER = (ADD, PULL, RUN, TICK)  # priority / FIFO / timeout ordering needs several jobs: deeper, smaller alphabet
 ORDER_Q = (ADD, PULL, RUN)  # quick tier: without the clock (deadlines stay concrete)
 FINAL = (ADD, PULL, FINISH, KILL, TICK, DISCONNECT, RUN)  # races between finish / kill / timeout / disconnect
@@ -28,7 +28,7 @@ def h_twin(b1: int, b2: int, c3: int):
         sim.step(ADD, 0, b1, 50)
         sim.step(ADD, 0, b2, 50)
         sim.step(PULL, 0, 3, 0)
-        if sim.workers[0].held and sim.workers[0].held[0] == 2:
+        if sim.workers[0].held and sim.workers[0].held[0].id == 2:
             return {"reached": "second job overtakes the first by priority", "history": sim.history}
         return None
     except qsim.Violation:
